@@ -92,6 +92,11 @@ def gen_dataset(rng, kind, n, dim):
     while True:
         if kind == "dyadic":
             pts = [[float(rng.randint(-7, 7)) for _ in range(dim)] for _ in range(n)]
+        elif kind == "clusters":
+            # two well separated groups, each larger than num_neighbors: the k-nearest-neighbour graph at the requested
+            # k is disconnected and find_neighbors has to retry with more neighbours (dyadic, like "dyadic")
+            pts = [[float(rng.randint(-3, 3) + (64 if (i >= n // 2 and j == 0) else 0)) for j in range(dim)]
+                   for i in range(n)]
         elif kind == "lattice":
             pts = [[float(rng.randint(-3, 3)) / 2.0 for _ in range(dim)] for _ in range(n)]
         else:
@@ -104,8 +109,9 @@ def gen_dataset(rng, kind, n, dim):
 def add_value_tables(rng, ds):
     """kernel / distance VALUE TABLES that are NOT symmetric (directed dissimilarities: the cost of a -> b is not the
     cost of b -> a): the euclidean distance / linear kernel of the samples, every off-diagonal entry perturbed on its
-    own.  Kernel perturbations stay below a quarter of the smallest squared distance, so that
-    K(a,a) - 2 K(a,b) + K(b,b) stays positive (KernelDistance takes its square root)."""
+    own (a few per cent: the tables stay close to a metric / a Gram matrix, so that the tree-based neighbour searches
+    and the eigen-solvers are used inside their contract).  Kernel perturbations stay below an eighth of the smallest
+    squared distance, so that K(a,a) - 2 K(a,b) + K(b,b) stays positive (KernelDistance takes its square root)."""
     n, dim = ds["N"], ds["D"]
     pts = [[float.fromhex(v) for v in ds["x"][i * dim:(i + 1) * dim]] for i in range(n)]
     d2 = [[sum((a - b) ** 2 for a, b in zip(pts[i], pts[j])) for j in range(n)] for i in range(n)]
@@ -116,8 +122,8 @@ def add_value_tables(rng, ds):
             k = sum(a * b for a, b in zip(pts[i], pts[j]))
             d = d2[i][j] ** 0.5
             if i != j:
-                k += mind2 * rng.choice([0.0, 0.125, -0.125, 0.0625, -0.0625, 0.1875])
-                d *= rng.choice([1.0, 1.125, 1.25, 1.5, 0.875, 1.0625])
+                k += mind2 * rng.choice([0.0, 0.03125, -0.03125, 0.0625, -0.0625, 0.125])
+                d *= rng.choice([1.0, 1.03125, 0.96875, 1.0625, 0.9375, 1.125])
             ktab.append(k.hex())
             dtab.append(d.hex())
     ds["ktab"], ds["dtab"] = ktab, dtab
@@ -143,7 +149,7 @@ def data_line(ds):
 
 def default_params(rng, ds, variant):
     n = ds["N"]
-    p = {"d": variant.get("d", 2), "k": rng.choice([5, 6, 7]), "seed": rng.randint(1, 10 ** 6),
+    p = {"d": variant.get("d", 2), "k": rng.choice([5, 6, 7]) if ds["kind"] != "clusters" else rng.choice([4, 5, 6]), "seed": rng.randint(1, 10 ** 6),
          "nm": variant.get("nm", "brute"), "em": variant.get("em", "dense"),
          "perp": rng.choice([2.0, 3.0, min(4.0, (n - 1) / 3.0)]), "theta": variant.get("theta", 0.0),
          "maxit": 30, "lr": 0.5, "width": rng.choice([1.0, 2.5]), "ts": rng.choice([1, 2, 3]),
@@ -168,9 +174,11 @@ def run_line(i, c):
     return "RUN id=%d " % i + " ".join("%s=%s" % (k, c[k]) for k in keys if k in c and c[k] != "") + "\n"
 
 
-def cases_for(method, needs, ds, params, tier, rng):
-    """the call forms run for one (data set, method).  needs: string over KDF (the method's own flags)."""
-    dy = ds["kind"] in ("dyadic", "lattice")
+def cases_for(method, needs, ds, params, tier, rng, reduced=False):
+    """the call forms run for one (data set, method).  needs: string over KDF (the method's own flags).
+    reduced: the reference, the chains that attach exactly the declared callbacks, tapkee::embed directly, one chain
+    over objects, and the value-table stream (used for the extra data set aimed at one code path)."""
+    dy = ds["kind"] in ("dyadic", "lattice", "clusters")
     src = "hand" if dy else "eigen"
     backs = ["eigen", "pre"] + (["hand"] if dy else [])
     out = [make_case(method, "M", "", "range", "eigen", src, params)]
@@ -181,6 +189,12 @@ def cases_for(method, needs, ds, params, tier, rng):
         if set(o) == set(needs):
             for e, entry in enumerate(["range", "using"]):
                 out.append(make_case(method, "U", o, entry, backs[(e + j) % len(backs)], src, params))
+    if reduced:
+        out.append(make_case(method, "Y", "KDF", "range", backs[j % len(backs)], src, params))
+        out.append(make_case(method, "O", FULL_ORDERS[j], "using", backs[(j + 1) % len(backs)], src, params))
+        if "ktab" in ds:
+            out += table_cases(method, needs, src, params, False, j)
+        return out
     for o in FULL_ORDERS:
         out.append(make_case(method, "E", o, "range", "eigen", src, params))
     # tapkee::embed called directly (the chain's own target): eigen callbacks, counting callbacks
@@ -352,7 +366,7 @@ def probe_adapters(ctx, exe, ds, stats):
     """every adapter class the library ships, called DIRECTLY for all ordered pairs (a, b) of the data set: the
     precomputed ones on the asymmetric value tables (the answer must be the table entry for the pair as given), the
     eigen ones on the data (against hand-written loops when the data are dyadic, operator() against the named member)"""
-    exact = ds["kind"] in ("dyadic", "lattice")
+    exact = ds["kind"] in ("dyadic", "lattice", "clusters")
     r = ctx.run(exe, data_line(ds) + "ADAPT exact=%d\n" % (1 if exact else 0), timeout=60)
     seen = {}
     for line in r.out.splitlines():
@@ -803,7 +817,8 @@ def plan(ctx, tier, rng, extra_search=False):
     """list of (dataset, variant)"""
     if tier == "quick" and not extra_search:
         specs = [("dyadic", 18, 3, {"nm": "brute", "em": "dense"}),
-                 ("generic", 20, 4, {"nm": "covertree", "em": "dense", "speg": 0})]
+                 ("generic", 20, 4, {"nm": "covertree", "em": "dense", "speg": 0}),
+                 ("clusters", 18, 2, {"nm": "brute", "em": "dense", "reduced": 1})]
     else:
         specs = [("dyadic", 18, 3, {"nm": "brute", "em": "dense"}),
                  ("generic", 20, 4, {"nm": "covertree", "em": "dense", "speg": 0}),
@@ -817,7 +832,9 @@ def plan(ctx, tier, rng, extra_search=False):
                       ("generic", 40, 6, {"nm": "covertree", "em": "dense", "d": 3, "theta": 0.5}),
                       ("lattice", 25, 4, {"nm": "brute", "em": "randomized", "d": 1, "speg": 0}),
                       ("generic", 33, 2, {"nm": "vptree", "em": "dense", "d": 2, "theta": 0.5}),
-                      ("dyadic", 14, 5, {"nm": "brute", "em": "dense", "d": 3})]
+                      ("dyadic", 14, 5, {"nm": "brute", "em": "dense", "d": 3}),
+                      ("clusters", 20, 3, {"nm": "vptree", "em": "dense"}),
+                      ("clusters", 18, 2, {"nm": "covertree", "em": "dense", "reduced": 1})]
         if extra_search:
             specs = specs[2:]
     out = []
@@ -834,7 +851,7 @@ def evaluate(ctx, exe, mexe, needs, datasets, tier, rng, stats, samples):
         probe_adapters(ctx, exe, ds, stats)
         cases = []
         for m in METHODS:
-            cases += cases_for(m, needs.get(m, ""), ds, params, tier, rng)
+            cases += cases_for(m, needs.get(m, ""), ds, params, tier, rng, reduced=bool(variant.get("reduced")))
         results = run_cases(ctx, exe, ds, cases)
         if any(r["kind"] == "NOTBUILT" for r in results):      # fallback build without the raw eigen family
             keep = [i for i, r in enumerate(results) if not (r["kind"] == "NOTBUILT" and cases[i]["fam"] in ("E", "X"))]
@@ -987,7 +1004,7 @@ def _run(ctx, restore):
         for x in summ["bad_adapters"][:8]:
             ctx.note("adapter member %s does not return the supplied value for every argument (decider of "
                      "Chain_Adapt_Spec false on the regenerated table)" % x)
-        for flag in ("callback_classes_ok", "wrappers_ok", "derefs_ok", "dispatch_ok", "adapters_ok", "callsites_ok"):
+        for flag in ("callback_classes_ok", "wrappers_ok", "derefs_ok", "dispatch_ok", "adapters_ok", "callsites_ok", "invoked_ok"):
             if summ["flags"].get(flag) == "0":
                 ctx.note("regenerated tables: decider %s is false" % flag)
     plans = plan(ctx, ctx.tier, rng)
@@ -1021,9 +1038,14 @@ def _run(ctx, restore):
              "methods: the matrix form (reference), the 6 attachment orders with tapkee's eigen callbacks, the 6 orders x "
              "embedRange/embedUsing with counting callbacks over indices (backed by eigen callbacks / hand-written loops / "
              "precomputed matrices), the same over a sequence of objects, and the partial chains (every order of every "
-             "proper subset; the exact declared subset always through both entry points).  Each result is compared "
-             "bitwise with the reference when the chain supplies the declared callbacks, the 12 call counters and the "
-             "object-to-index counter are checked, and the extracted model's predicted outcome and allowed-call set are "
+             "proper subset; the exact declared subset always through both entry points); the VALUE-TABLE stream: kernel / "
+             "distance callbacks answering from arbitrary, NOT symmetric tables -- reference = hand-written table callbacks, "
+             "compared with the same tables handed to tapkee as precomputed matrices (exact declared subset x both entries, "
+             "two full orders, tapkee::embed directly, a sequence of objects); a third data set of two separated clusters "
+             "(the neighbour graph is disconnected at the requested k, so the connectivity retry runs) with a reduced list "
+             "of forms.  Once per data set every adapter class is called directly for all ordered pairs.  Each result is compared "
+             "bitwise with the reference when the chain supplies the declared callbacks, the 12 call counters, the "
+             "object-to-index / index-to-object / not-an-element / adapter-contract counters are checked, and the extracted model's predicted outcome and allowed-call set are "
              "compared.  non-trivial = a chain that returned an embedding bitwise equal to the reference; distinct by "
              "hash of (data, method, family, order, entry, backing, neighbour method, eigen method).",
         samples=samples,
